@@ -132,7 +132,7 @@ class Ctx:
                 S = it.exit_state(bi)
                 if S is None or S.dead:
                     continue
-                v = S.read((("L", 0), ()))
+                v = S.read((it.L(0), ()))
                 sh = shape_of(v, S, self, tykey(it.body.locals[0]["t"]))
                 shape = sh if shape is None else join_shape(shape, sh)
             self.ret_shapes[key] = shape
@@ -250,6 +250,10 @@ class Interp:
         S = State()
         return S
 
+    def L(self, n):
+        """memory root of local n of this body (unique per body, so SVs of different functions never coincide)"""
+        return ("L", n, self.body.key)
+
     def site(self, extra=None):
         bi, si = self.cur
         if extra is None:
@@ -258,7 +262,7 @@ class Interp:
 
     # ---------------------------------------------------------------- places and operands
     def resolve(self, S, place):
-        root = ("L", place.local)
+        root = self.L(place.local)
         proj = []
         loc = (root, ())
         for e in place.proj:
@@ -345,7 +349,7 @@ class Interp:
                     S = it.exit_state(bi)
                     if S is None:
                         continue
-                    v0 = S.read((("L", 0), ()))
+                    v0 = S.read((it.L(0), ()))
                     if isinstance(v0, tuple) and v0[0] == "ref" and v0[1][0][0] == "L":
                         val = S.read(v0[1])
                     else:
